@@ -717,6 +717,32 @@ def random_expr(rng, d):
     return ("sub", random_expr(rng, d - 1), idx)
 
 
+def gen_cmp_chains():
+    """(left op1 mid) op2 right for all 36 operator pairs: tagged / tag-only / plain / compound left operands,
+    plain / tagged / constant middle operands -- the text `<t> < t_end > flag` contains the token sequence
+    `<` identifier `>` of a tag; plus the chains inside the contexts that print them without parentheses."""
+    t, dt, y, pk = ("var", "<t>"), ("var", "<dt>"), ("var", "<state>y"), ("var", "<p>k")
+    t_end, flag, n = ("var", "t_end"), ("var", "flag"), ("var", "n")
+    lefts = [t, y, L0, ("nary", "sum", [t, dt]), ("call", FN, [t], []), ("sub", L0, dt), ("not", dt)]
+    mids = [t_end, pk, ("int", 2), ("nary", "sum", [n, ("int", 1)])]
+    rights = [flag, ("int", 0), dt, ("nary", "prod", [("int", 2), n])]
+    ops = ["lt", "le", "gt", "ge", "eq", "ne"]
+    out = []
+    for o1 in ops:
+        for o2 in ops:
+            for a in lefts:
+                for b in mids:
+                    for c in rights:
+                        out.append(("bin", o2, ("bin", o1, a, b), c))
+            ch = ("bin", o2, ("bin", o1, t, t_end), flag)
+            ch2 = ("bin", o2, ("bin", o1, y, n), flag)
+            out += [("nary", "and", [ch2, ("bin", "gt", dt, ("int", 0))]), ("nary", "or", [L0, ch]),
+                    ("if", ch, dt, ("nary", "prod", [("int", 2), dt])), ("call", FN, [ch, y], []),
+                    ("call", FN, [y], [["x", ch]]), ("not", ch), ("sub", L0, ch),
+                    ("bin", o1, ("bin", o2, ("bin", o1, dt, n), t_end), flag)]
+    return out
+
+
 GOOD_IDENTS = ["y", "y_n", "Y2", "_t", "a$b", "@a", "k1_", "andx", "if_", "or_1", "notation", "elsewhere", "iffy",
                "T", "F", "true", "Tru", "Fals"]
 BAD_IDENTS = ["Truex", "True", "False_alarm", "and", "or", "not", "else", "if", "1f", "a b", "a-b", "a.b", "", "and$x",
@@ -817,9 +843,56 @@ def gen_parse_strings(tier, rng):
     return uniq
 
 
-BT_NAMES = ["a", "<p>y", "<state>y_n", "a:b", "", "0", "9lives", "<", ">", "::", "<func>1f", "if", "and", "True",
-            "A_Z_0_9", "<<>>", "x" * 40, "<ret_time_id>y", "<dt>"]
+BT_ALPHABET = "<>:_" + "abcdefghijklmnopqrstuvwxyz" + "ABCDEFGHIJKLMNOPQRSTUVWXYZ" + "0123456789"
 BT_BAD = ["a b", "a-b", "a`b", "a.b", "a$b", "a@b", "a+b"]
+
+
+def bt_names(rng):
+    """Names over the whole alphabet of the back-tick regexp [<>:a-zA-Z0-9_]*: the empty name, every single
+    character, tag-only names for every tag, tagged names, names starting with a digit (plain and after a tag),
+    colons, stray angle brackets, keywords, random strings."""
+    out = ["", "a", "A_Z_0_9", "x" * 40, "if", "and", "or", "not", "else", "True", "False", "Truex"]
+    out += list(BT_ALPHABET)
+    for t in TAGS + ["exec", "target", "x"]:
+        out += ["<%s>" % t, "<%s>y" % t, "<%s>y_n1" % t, "<%s>1f" % t, "<%s>0" % t, "<%s>a:b" % t, "<%s>_" % t]
+    out += ["0", "9lives", "1f", "007", "1_000", "a:b", ":", "::", ":a", "a:", "<p>:a", "<", ">", "<<>>", "><", "<>",
+            "<>y", "a<b>", "<a><b>c", "<ret_state><p>y", "<a", "a>", "<1>y", "<if>y", "<True>", "<a>b>c", "a<b", "a>b"]
+    for _ in range(120):
+        out.append("".join(rng.choice(BT_ALPHABET) for _ in range(rng.randint(1, 8))))
+    seen, uniq = set(), []
+    for n in out:
+        if n not in seen:
+            seen.add(n)
+            uniq.append(n)
+    return uniq
+
+
+def bt_class(n):
+    """What kind of quoted name it is (one finding is reported per kind, smallest first)."""
+    m = re.match(r"<([^<>]*)>(.*)\Z", n, re.S)
+    if n == "":
+        return "empty"
+    if m and m.group(2) == "" and is_ident(m.group(1)):
+        return "tag_only"
+    if m and is_ident(m.group(1)) and is_ident(m.group(2)):
+        return "tagged"
+    if is_ident(n):
+        return "plain"
+    if re.match(r"(<[^<>]*>)?[0-9]", n):
+        return "digit_initial"
+    if ":" in n:
+        return "colon"
+    if "<" in n or ">" in n:
+        return "angle_brackets"
+    return "other"
+
+
+def bt_contexts(n):
+    """Expressions around Variable(n) whose text parses back to the very same object."""
+    v = ("var", n)
+    return [v, ("nary", "prod", [v, ("int", 2)]), ("nary", "sum", [L0, v]), ("call", FN, [v], [["x", v]]),
+            ("sub", v, v), ("bin", "ge", v, L0), ("if", v, L0, v), ("not", v), ("call", v, [L0], []),
+            ("sub", L0, ("tuple", [v, v]))]
 
 
 def quote(e):
@@ -1056,6 +1129,9 @@ def main(tier):
         cases.append(random_expr(rng, rng.choice([2, 3, 3, 4, 5])))
     names, n_good, n_bad = gen_names()
     cases += names
+    chains = gen_cmp_chains()
+    chain_keys = {key(e) for e in chains}
+    cases += chains
     cases += DEGENERATE
     seen, uniq = set(), []
     for e in cases:
@@ -1105,15 +1181,24 @@ def main(tier):
                            "class": cl, "expr": e2, "expr_coq": to_coq(e2), "text": out2.get("str"),
                            "oracle": oracle(e2, out2), "replay": "./check C19 --replay <this file>"})
 
-    # ---- back-ticks: "`n`" denotes Variable(n)
-    bt_fail = []
+    # ---- back-ticks: "`n`" denotes Variable(n), alone and inside an expression, for names over the whole
+    #      alphabet of the regexp; one finding per kind of name (smallest text first)
+    BT_NAMES = bt_names(rng)
+    bt_fail = {}
+    n_bt = 0
     for n in BT_NAMES:
-        r = impl_parse("`%s`" % n)
-        if r[:2] != ("ok", ("var", n)):
-            bt_fail.append((n, r[:2]))
-    for n, r in bt_fail[:1]:
-        rep.violation({"what": "a back-tick quoted name does not denote the variable between the back-ticks",
-                       "string": "`%s`" % n, "impl_result": r, "required": ["ok", ["var", n]],
+        for e in bt_contexts(n):
+            n_bt += 1
+            sq = impl_str(quote(e))
+            r = impl_parse(sq)[:2]
+            if r != ("ok", e):
+                cl = bt_class(n)
+                if cl not in bt_fail or len(sq) < len(bt_fail[cl][0]):
+                    bt_fail[cl] = (sq, r, e, n)
+    for cl, (sq, r, e, n) in sorted(bt_fail.items()):
+        rep.violation({"what": "a back-tick quoted name does not denote the variable between the back-ticks "
+                               "(kind of name: %s)" % cl, "class": "backticks_" + cl, "name": n,
+                       "string": sq, "impl_result": r, "required": ["ok", e],
                        "replay": "./check C19 --replay <this file>"})
 
     # ---- back-ticks in context: quoting every name of e must not change what the text denotes
@@ -1147,6 +1232,7 @@ def main(tier):
     # ---- correspondence with the Coq model
     pstrings = gen_parse_strings(tier, rng)
     pstrings += ["`%s`" % n for n in BT_NAMES + BT_BAD]
+    pstrings += [impl_str(quote(e)) for n in BT_NAMES[::4] for e in bt_contexts(n)[1:4]]
     pstrings += bt_strings[::3]
     pres = [impl_parse(s) for s in pstrings]
     terms, owner = [], []
@@ -1159,6 +1245,8 @@ def main(tier):
         if "str_exc" in out or not coq_able(e) or not coq_able_string(out["str"]):
             continue
         if i >= n_corpus and depth(e) >= 3 and i not in keep_big:
+            continue
+        if i >= n_corpus and key(e) in chain_keys and (i % (4 if tier == "quick" else 1)) != 0:
             continue
         if i >= n_corpus and depth(e) == 1 and e[0] != "not" and (i % small_stride) != 0 and printable(e):
             continue
@@ -1219,7 +1307,10 @@ def main(tier):
              "of depth <= 5 + names with every tag + degenerate shapes; parser-only cases = hand-written strings + "
              "random token strings + mutated printed forms; non-trivial = depth >= 1, distinct by printed text",
         traces_validated_against_impl=n_eval, model_impl_disagreements=len(mism),
-        input_distribution=dict(dist, corpus=n_corpus, random=nrand, names_good=n_good, names_bad=n_bad,
+        input_distribution=dict(dist, corpus=n_corpus, random=nrand, names_good=n_good, names_bad=n_bad, comparison_chains=len(chains),
+                                backtick_names=len(BT_NAMES), backtick_texts=n_bt,
+                                backtick_kinds={k: sum(1 for n in BT_NAMES if bt_class(n) == k) for k in
+                                                sorted({bt_class(n) for n in BT_NAMES})},
                                 degenerate=len(DEGENERATE), parser_strings=len(pstrings),
                                 in_language_without_listed_shape=n_in_language,
                                 reparsed_object_differs_from_input=n_renested,
